@@ -169,8 +169,7 @@ Theorem pycode_evals_back W o :
   exists o', eval W (env_of_imports (imports W o)) (repr W o) = Some o' /\ veq true o' o = true.
 Proof.
   intros Hwf Hg. unfold guard in Hg.
-  apply andb_true_iff in Hg as [Hg Hstd]. apply andb_true_iff in Hg as [Hg Hinit].
-  apply andb_true_iff in Hg as [Harr Himp].
+  apply andb_true_iff in Hg as [Hg Hstd]. apply andb_true_iff in Hg as [Himp Hinit].
   exists (norm W o). split.
   - apply eval_repr_norm; [apply imports_builtins_free; exact Himp|].
     intros u Hu. unfold ok1. repeat split.
@@ -179,7 +178,6 @@ Proof.
     + apply imports_resolve; assumption.
   - apply veq_norm. intros u Hu. unfold ok2. repeat split.
     + eapply forallb_In; [exact Hwf|exact Hu].
-    + eapply forallb_In; [exact Harr|exact Hu].
     + eapply forallb_In; [exact Hinit|exact Hu].
 Qed.
 
@@ -264,15 +262,20 @@ Proof.
     destruct (heads_list W (fun _ => True) l n H) as [x [Hx Hnm]];
       [intros u Hu; apply Hen; cbn; right; exact Hu|exact Hn|].
     eapply named_mono; [|exact Hnm]. intros u Hu. eapply subs_VList_in; eauto.
-  - cbn [repr] in Hn. destruct l as [|y l]; [destruct Hn|]. cbn [heads] in Hn.
-    destruct (heads_list W (fun _ => True) (y :: l) n H) as [x [Hx Hnm]];
+  - cbn [repr heads] in Hn.
+    destruct (heads_list W (fun _ => True) l n H) as [x [Hx Hnm]];
       [intros u Hu; apply Hen; cbn; right; exact Hu|exact Hn|].
     eapply named_mono; [|exact Hnm]. intros u Hu. eapply subs_VTuple_in; eauto.
   - cbn [repr] in Hn. destruct l as [|y l].
     + rewrite heads_ECall in Hn. cbn in Hn. destruct Hn as [<-|[]]. left. destruct f; reflexivity.
-    + cbn [heads] in Hn.
+    + assert (Hn' : In n (flat_map heads (map (repr W) (y :: l))) \/ is_builtin n = true).
+      { destruct f.
+        - rewrite heads_ECall in Hn. cbn [flat_map heads_kws app heads] in Hn.
+          destruct Hn as [<-|Hn]; [right; reflexivity|]. rewrite !app_nil_r in Hn. left. exact Hn.
+        - cbn [heads] in Hn. left. exact Hn. }
+      destruct Hn' as [Hn'|Hb]; [|left; exact Hb].
       destruct (heads_list W (fun _ => True) (y :: l) n H) as [x [Hx Hnm]];
-        [intros u Hu; apply Hen; cbn; right; exact Hu|exact Hn|].
+        [intros u Hu; apply Hen; cbn; right; exact Hu|exact Hn'|].
       eapply named_mono; [|exact Hnm]. intros u Hu. eapply subs_VSet_in; eauto.
   - rewrite repr_VDict, heads_EDict in Hn.
     assert (Hen' : forall u, In u (subs_pairs W kv) -> gh W u = true)
